@@ -318,7 +318,7 @@ def _run(ctx, violations, cov, deferred):
 
     # spec -> impl: replay the generated glyph tables on allsorts
     gen_trace = ctx.path("gen_trace.ndjson")
-    rep = vlib.run_harness(binp, ["replay", cases_path, gen_trace])
+    rep = vlib.run_harness(binp, ["replay", cases_path, gen_trace], hang_path=gen_trace + ".hang")
     ctx.note("replay: %s" % json.dumps(rep))
     cov.update({"transitions": rep.get("cases", 0), "traces_validated_against_impl": rep.get("cases", 0)})
 
